@@ -281,7 +281,15 @@ fn task_message(message: &str, seconds: usize, max_cols: usize) -> String {
     };
     let mut out = message.to_owned();
     if out.len() + time_note.len() >= max_cols {
-        out.truncate(max_cols - time_note.len() - 3);
+        // Leave room for the ellipsis and the time note (which may not even
+        // fit on a narrow terminal), and don't cut a character in half.
+        let mut len = max_cols
+            .saturating_sub(time_note.len() + 3)
+            .min(out.len());
+        while !out.is_char_boundary(len) {
+            len -= 1;
+        }
+        out.truncate(len);
         out.push_str("...");
     }
     out.push_str(&time_note);
